@@ -106,7 +106,8 @@ pub enum PolicyOp {
     RebootNeeded(bool),
 }
 pub trait PolicyEngine {
-    type TimeSource: TimeSource;
+    type TimeSource: TimeSource + Clone;
+    fn time_source(&self) -> &Self::TimeSource;
     type InstallResult;
     type InstallPlan: Plan;
     /// every question asked so far, with the answer received
@@ -162,6 +163,10 @@ pub trait AppSet {
     fn update_from_omaha(&mut self, app_responses: &[update_check::AppResponse])
         ensures final(self).apps() == apps_updated(old(self).apps(), app_responses@),
             final(self).system_app_id() == old(self).system_app_id();
+    fn load<'a, VxI0: Storage>(&'a mut self, storage: &'a VxI0) -> (f: LocalBoxFuture<'a, ()>)
+        ensures f.awaited() ==> final(self).apps().len() == old(self).apps().len()
+            && final(self).system_app_id() == old(self).system_app_id()
+            && (forall|i: int| 0 <= i < old(self).apps().len() ==> #[trigger] final(self).apps()[i] == app_load_result(old(self).apps()[i], storage.string_at(old(self).apps()[i].id@)));
     fn persist<'a, VxI0: Storage>(&'a self, storage: &'a mut VxI0) -> (f: LocalBoxFuture<'a, ()>)
         ensures f.awaited() ==> is_ext(old(storage).log(), final(storage).log())
             && app_persist_ops(self.apps(), final(storage).log().subrange(old(storage).log().len() as int, final(storage).log().len() as int));
@@ -233,6 +238,10 @@ pub enum VxSel2<A, B> { A(A), B(B) }
 pub enum VxSel3<A, B, C> { A(A), B(B), C(C) }
 /// the future `f` has run to completion (for a timer-built future: its completion condition holds)
 pub uninterp spec fn vx_done<F>(f: F) -> bool;
+#[verifier::external_body]
+pub async fn vx_join2<A: Future, B: Future>(a: A, b: B) -> (r: (A::Output, B::Output))
+    ensures a.awaited() && b.awaited() && r.0 == a@ && r.1 == b@
+{ unimplemented!() }
 #[verifier::external_body]
 pub async fn vx_select2<A: Future, B: Future>(a: A, b: B) -> (r: VxSel2<A::Output, B::Output>)
     ensures r is A ==> vx_done(a), r is B ==> vx_done(b)
